@@ -25,6 +25,7 @@ TNext ==
    /\ LET ev == TraceLog[l] IN
       IF ev.e = "Reset" THEN TRUE
       ELSE IF ev.e = "Fault" THEN Flag(l, <<"fault">>, [kind |-> ev.kind, where |-> ev.where])
+      ELSE IF ev.e = "Pd" THEN TRUE       \* (the other conversion family, logged by re-entrant calls: judged by the other trace specification)
       ELSE LET errs == Errs(ev) IN
            IF errs # {} THEN Flag(l, SetToSeq(errs), [text |-> IF IsPtrFmt(ev.fmt) THEN <<>> ELSE Expected(ev.fmt, ev.args)]) ELSE TRUE
 TSpec == TInit /\ [][TNext]_<<l, sync>>
